@@ -182,9 +182,10 @@ def same_host(ours: Optional[bytes], ref: bytes) -> bool:
     return ours.strip(b'[]') == ref
 
 
-def judge_direct(target: bytes, connect: bool, ref: Optional[Dict[str, Any]]) -> List[Tuple[str, Any]]:
+def judge_direct(target: bytes, connect: bool, ref: Optional[Dict[str, Any]], host_hdr: Optional[bytes] = b'x') -> List[Tuple[str, Any]]:
     bad: List[Tuple[str, Any]] = []
-    line = (b'CONNECT ' if connect else b'GET ') + target + b' HTTP/1.1\r\nHost: x\r\n\r\n'
+    line = (b'CONNECT ' if connect else b'GET ') + target + b' HTTP/1.1\r\n' + \
+        (b'' if host_hdr is None else b'Host: ' + host_hdr + b'\r\n') + b'Accept: */*\r\n\r\n'
     p = HttpParser(httpParserTypes.REQUEST_PARSER)
     try:
         p.parse(memoryview(line))
@@ -241,7 +242,11 @@ def run_case(case: Dict[str, Any]) -> Dict[str, Any]:
         cc = crosscheck_reference(target, connect, ref)
         if cc:
             inconclusive = 'reference-selfcheck: ' + cc
-        for (what, d) in judge_direct(target, connect, ref):
+        # the destination comes from the request-target alone: whatever the Host field says (another port, another host,
+        # nothing) must not move it
+        hh = rng.choice([b'x', b'x:8080', b'other.test:8443', b'[::1]:9', None, b'h:0', b':81',
+                         (ref['host'] if ref and ref['kind'] != 'ipv6' else b'y') + b':%d' % rng.choice([81, 8080, 8443, 65535])])
+        for (what, d) in judge_direct(target, connect, ref, hh):
             if lenient:
                 continue        # routing of 'host:' (empty port) is judged in live mode only
             k = 'direct|%s|%s' % (cls, what)
@@ -301,8 +306,17 @@ def run_case(case: Dict[str, Any]) -> Dict[str, Any]:
             alog = audit.start()
             client = rig.add_client('unix')
             hosthdr = (b'[%s]' % ref['host'] if ref and ref['kind'] == 'ipv6' else (ref['host'] if ref else b'x'))
+            decoy = None
+            if ref is not None and ip is not None and case.get('host_field') == 'other-port':
+                # the Host field names another port of the same host, where a decoy listens
+                try:
+                    decoy = rig.add_origin(ip, 0)
+                    hosthdr = hosthdr + b':%d' % decoy.port
+                    obs['host_field_names_other_port'] = 1
+                except OSError:
+                    decoy = None
             if connect:
-                client.send(b'CONNECT ' + target + b' HTTP/1.1\r\nHost: ' + target + b'\r\n\r\n')
+                client.send(b'CONNECT ' + target + b' HTTP/1.1\r\nHost: ' + (hosthdr if decoy is not None else target) + b'\r\n\r\n')
             else:
                 client.send(b'GET ' + target + b' HTTP/1.1\r\nHost: ' + hosthdr + b'\r\n\r\n')
             oc_box: Dict[str, Any] = {}
@@ -446,7 +460,19 @@ def run_port_wrap(case: Dict[str, Any], rng: random.Random) -> Dict[str, Any]:
             host = (G.token(rng, 1, 10).lower().strip(b'-_') or b'a') + b'.test'
             mapping[host.decode()] = ip
         origin = rig.add_origin(ip, 0)
-        port = origin.port + 65536 * case['k']
+        variant = case.get('variant', 'port-wrap')
+        if variant == 'nonutf8-host':
+            # a host that is not text at all, but spells a real host once its undecodable bytes are dropped
+            junk = rng.choice([b'\xff', b'\xfe', b'\xc0', b'\xc3', b'\xe2\x82', b'\xc0\xae'])
+            base = host.strip(b'[]')
+            at = rng.randint(1, len(base))
+            host = base[:at] + junk + base[at:]
+            if hk == 'ipv6':
+                host = b'[' + host + b']'
+            cls = '%s|%s|nonutf8-host' % (case['form'], hk)
+            port = origin.port
+        else:
+            port = origin.port + 65536 * case['k']
         target = (host + b':%d' % port) if connect else (b'http://' + host + b':%d' % port + b'/wrapped')
         sample = {'target': target, 'listener': '%s:%d' % (ip, origin.port)}
         lookups = resolver.reset(mapping)
@@ -478,7 +504,7 @@ def run_port_wrap(case: Dict[str, Any], rng: random.Random) -> Dict[str, Any]:
         code = msgs[0]['code'] if msgs else None
         wrapped = [c for c in connects if isinstance(c, tuple) and len(c) >= 2 and c[1] == origin.port]
         if 'oc' in box or wrapped:
-            viol.append({'key': 'live|%s|out-of-range-port-routed-to-port-mod-65536' % cls,
+            viol.append({'key': 'live|%s|%s' % (cls, 'out-of-range-port-routed-to-port-mod-65536' if variant == 'port-wrap' else 'uninterpretable-host-routed-to-a-real-host'),
                          'detail': {'target': target, 'listener': sample['listener'], 'connects': sample['connects'],
                                     'lookups': sample['lookups'], 'client': bytes(client.rx[:120])}})
         elif not ((code is not None and code >= 400) or (client.ended and not client.rx)):
@@ -539,7 +565,7 @@ def cases(tier: str, seed: int):
                 for p in PORTS:
                     i += 1
                     yield {'seed': seed, 'i': i, 'mode': 'live', 'form': form, 'host': h, 'port': p,
-                           'userinfo': rng.random() < 0.3, 'path': rng.choice(PATHS)}
+                           'userinfo': rng.random() < 0.3, 'path': rng.choice(PATHS), 'host_field': rng.choice(['same', 'other-port'])}
         for d in DAMAGE:
             for form in ('absolute', 'authority'):
                 for h in ('ldh', 'ipv4', 'ipv6'):
@@ -555,12 +581,16 @@ def cases(tier: str, seed: int):
                 for k in (1, 2, 65536):
                     i += 1
                     yield {'seed': seed, 'i': i, 'mode': 'port-wrap', 'form': form, 'host': h, 'port': 'wrap', 'k': k}
+            for h in ('ldh', 'ipv4', 'ipv6', 'localhost'):
+                for k in (1, 2):
+                    i += 1
+                    yield {'seed': seed, 'i': i, 'mode': 'port-wrap', 'variant': 'nonutf8-host', 'form': form, 'host': h, 'port': 'n/a', 'k': k}
 
 
 def floors(tier: str) -> Dict[str, int]:
     return {'direct_valid': 1000, 'direct_damaged': 20, 'live_valid': 100, 'connect_events': 60, 'lookup_events': 40,
             'origin_path_checked': 20, 'tunnel_established': 10, 'distinct:classes': 150,
-            'port_wrap': 40}
+            'port_wrap': 40, 'host_field_names_other_port': 40}
 
 
 if __name__ == '__main__':
